@@ -20,7 +20,7 @@ ASSUMPTIONS = [
     "temporary upload names (*.tmp) are counted, not judged",
 ]
 MONITORS = "store auditor after every step and inside a post-hook on HashFileDB.add (audits the receiving store after every add call)"
-REQUIRED_COUNTERS = ["persistent_workspace_steps", "dirs_with_several_large_files", "steps", "audits_after_step", "audits_after_add", "objects_rehashed", "dir_objects_reencoded", "op/stage-dir", "op/stage-file",
+REQUIRED_COUNTERS = ["inode_only_swaps", "persistent_workspace_steps", "dirs_with_several_large_files", "steps", "audits_after_step", "audits_after_add", "objects_rehashed", "dir_objects_reencoded", "op/stage-dir", "op/stage-file",
                      "op/upload-stage", "op/add", "op/transfer", "op/save", "op/migrate", "op/gc", "op/checkout", "op/pws-stage", "op/pws-edit", "op/pws-stage-only", "local_mode_checks"]
 
 
@@ -148,6 +148,21 @@ def run_shard(ctx):
                             gen.write_tree(pws, {("log",): b"first generation\n", ("sub", "data"): rng.choice(pool) + b"p", ("keep",): b"keep"})
                         if op == "pws-stage-only":
                             build(odb, pws, fs, algo)
+                        elif op == "pws-edit" and rng.random() < 0.4:
+                            # two equal-sized files change places by rename, mtimes preserved (unpacked from one archive): inode-only change
+                            pa, pb = os.path.join(pws, "twin-a"), os.path.join(pws, "twin-b")
+                            if not os.path.exists(pa):
+                                for pp, body in ((pa, b"AAAA twin content"), (pb, b"BBBB twin content")):
+                                    with open(pp, "wb") as f:
+                                        f.write(body)
+                                st0 = os.stat(pa)
+                                os.utime(pb, ns=(st0.st_atime_ns, st0.st_mtime_ns))
+                                if odb.state is not None:
+                                    build(odb, pws, fs, algo, dry_run=True)  # the state gets to know them
+                            os.replace(pa, pa + ".swap")
+                            os.replace(pb, pa)
+                            os.replace(pa + ".swap", pb)
+                            res.count("inode_only_swaps")
                         elif op == "pws-edit":
                             victim = rng.choice(["log", os.path.join("sub", "data")])
                             vp = os.path.join(pws, victim)
